@@ -363,3 +363,7 @@ func errStr(e *tcpip.Error) string {
 }
 
 func fmtAddr(a tcpip.Address) string { return fmt.Sprintf("%x", string(a)) }
+
+type tcpipAddress = tcpip.Address
+
+func tcpipProto(p uint16) tcpip.NetworkProtocolNumber { return tcpip.NetworkProtocolNumber(p) }
